@@ -626,7 +626,8 @@ impl Value {
         use miniscript::bitcoin::hex::FromHex;
 
         let expected_byte_len = match ty.as_inner() {
-            TypeInner::UInt(int) => int.byte_width(),
+            // Integers that are narrower than one byte (u1, u2, u4) have no hexadecimal notation
+            TypeInner::UInt(int) if 0 < int.byte_width() => int.byte_width(),
             TypeInner::Array(inner, len) if inner.as_integer() == Some(UIntType::U8) => *len,
             _ => return Err(Error::ExpressionUnexpectedType(ty.clone())),
         };
